@@ -229,3 +229,32 @@ Proof.
       eexists; split; [reflexivity|]; cbv [nz nth]; norm_goal; pow_const; apply stack_eq_refl |]).
   exfalso; lia.
 Qed.
+
+(* ---- shifts and rotations by an immediate amount: all 32 forms of each family ------------------- *)
+Ltac cases32 n tac := do 32 (destruct n as [|n]; [first [exfalso; lia | tac]|]); exfalso; lia.
+Ltac imm_shift leaf :=
+  match goal with |- instr_spec_g (ops_of ?nm) _ _ _ _ =>
+    let o := eval vm_compute in (ops_of nm) in change (ops_of nm) with o end;
+  apply instr_by_view_g; [vm_compute; reflexivity|];
+  intros l Hl Hc Hg; d16 l Hl; canon16 Hc; cbv [g1 nz nth firstn] in Hg; guard_facts;
+  split_ifs; run_view2; try kill_const;
+  eexists; split; [reflexivity|]; cbv [nz nth Z.of_nat Pos.of_succ_nat Pos.succ]; norm_goal; pow_const; small_products_c; leaf.
+
+Ltac imm_leaf := first [ apply stack_eq_refl | fadd_c; apply stack_eq_refl | fadd_c; apply stack_eq_cons; [|apply stack_eq_refl]; unfold TWO32 in *; Z.div_mod_to_equations; lia ].
+
+Theorem u32shl_imm_ok : forall n, (n < 32)%nat ->
+  instr_spec_g (ops_of ("u32shl." ++ show n)) 1 g1 no_pre (fun xs => [(nz xs 0 * 2 ^ Z.of_nat n) mod TWO32]).
+Proof. intros n Hn. cases32 n ltac:(imm_shift imm_leaf). Qed.
+
+Theorem u32shr_imm_ok : forall n, (n < 32)%nat ->
+  instr_spec_g (ops_of ("u32shr." ++ show n)) 1 g1 no_pre (fun xs => [nz xs 0 / 2 ^ Z.of_nat n]).
+Proof. intros n Hn. cases32 n ltac:(imm_shift imm_leaf). Qed.
+Theorem u32rotl_imm_ok : forall n, (n < 32)%nat ->
+  instr_spec_g (ops_of ("u32rotl." ++ show n)) 1 g1 no_pre
+    (fun xs => [(nz xs 0 * 2 ^ Z.of_nat n) mod TWO32 + (nz xs 0 * 2 ^ Z.of_nat n) / TWO32]).
+Proof. intros n Hn. cases32 n ltac:(imm_shift imm_leaf). Qed.
+
+Theorem u32rotr_imm_ok : forall n, (n < 32)%nat ->
+  instr_spec_g (ops_of ("u32rotr." ++ show n)) 1 g1 no_pre
+    (fun xs => [nz xs 0 / 2 ^ Z.of_nat n + (nz xs 0 mod 2 ^ Z.of_nat n) * 2 ^ (32 - Z.of_nat n)]).
+Proof. intros n Hn. cases32 n ltac:(imm_shift imm_leaf). Qed.
